@@ -726,6 +726,57 @@ func c04Flame(l *core.Local) {
 	}
 }
 
+// c04FlameRebind: an earlier handler re-registers the services the context maps at creation
+// (http.ResponseWriter, *http.Request); later handlers of every shape - including the ones that are
+// wrapped automatically into fast invokers - must receive the later registration.
+type c04TagWriter struct {
+	http.ResponseWriter
+	tag string
+}
+
+func c04FlameRebind(l *core.Local) {
+	for _, which := range []string{"writer", "request", "both"} {
+		f := flamego.NewWithLogger(io.Discard)
+		var seen []string
+		var newReq2 *http.Request
+		f.Use(func(c flamego.Context, w http.ResponseWriter, r *http.Request) {
+			if which == "writer" || which == "both" {
+				c.MapTo(&c04TagWriter{ResponseWriter: w, tag: "rebound"}, (*http.ResponseWriter)(nil))
+			}
+			if which == "request" || which == "both" {
+				newReq2 = r.Clone(r.Context())
+				newReq2.Header.Set("X-Rebound", "1")
+				c.Map(newReq2)
+			}
+		})
+		note := func(shape string, w http.ResponseWriter, r *http.Request) {
+			_, wr := w.(*c04TagWriter)
+			seen = append(seen, fmt.Sprintf("%s:writer-rebound=%v,request-rebound=%v", shape, wr, r.Header.Get("X-Rebound") == "1"))
+		}
+		f.Use(func(w http.ResponseWriter, r *http.Request) { note("func(w,r)", w, r) })
+		f.Use(http.HandlerFunc(func(w http.ResponseWriter, r *http.Request) { note("http.HandlerFunc", w, r) }))
+		f.Use(func(c flamego.Context, w http.ResponseWriter, r *http.Request) { note("func(c,w,r)", w, r) })
+		f.Get("/t", func(w http.ResponseWriter, r *http.Request) string { note("returning", w, r); return "" })
+		f.ServeHTTP(&c01Spy{hdr: http.Header{}}, newReq("GET", "/t"))
+		wantW, wantR := which != "request", which != "writer"
+		for _, s := range seen {
+			l.Evals++
+			l.Transitions++
+			l.Traces++
+			l.NonTrivial++
+			want := fmt.Sprintf("writer-rebound=%v,request-rebound=%v", wantW, wantR)
+			if !strings.HasSuffix(s, want) {
+				l.Violate("flame-rebind/"+strings.SplitN(s, ":", 2)[0], fmt.Sprintf("after an earlier handler re-registered %s in the request scope, a later handler saw %s (expected %s)", which, s, want), c04Case{What: "flame-rebind"})
+			} else {
+				l.Class("flame:re-registered-service-reaches-later-handlers")
+			}
+		}
+		if len(seen) != 4 {
+			l.Violate("flame-rebind/handlers-ran", fmt.Sprintf("%d of 4 probe handlers ran", len(seen)), c04Case{What: "flame-rebind"})
+		}
+	}
+}
+
 func c04Run(r *core.Run) {
 	r.SetBudget(75 * time.Second)
 	if r.Thorough() {
@@ -840,6 +891,7 @@ func c04Run(r *core.Run) {
 	c04Histories(r)
 	fl := core.NewLocal()
 	c04Flame(fl)
+	c04FlameRebind(fl)
 	fl.States++
 	r.Merge(fl)
 }
@@ -879,6 +931,10 @@ func c04Replay(raw json.RawMessage) (bool, string) {
 			}
 		}
 		return false, ""
+	case "flame-rebind":
+		l := core.NewLocal()
+		c04FlameRebind(l)
+		return l.Classes["flame:re-registered-service-reaches-later-handlers"] != 12, "re-registered request services must reach later handlers of every shape"
 	case "flame":
 		l := core.NewLocal()
 		c04Flame(l)
